@@ -71,7 +71,11 @@ pub fn atan2(
     let x = quantity_arg!(args);
 
     let y_value = y.unsafe_value().to_f64();
-    let x_value = x.convert_to(y.unit()).unwrap().unsafe_value().to_f64();
+    let x_value = x
+        .convert_to(y.unit())
+        .map_err(|e| Box::new(RuntimeErrorKind::QuantityError(e)))?
+        .unsafe_value()
+        .to_f64();
 
     return_scalar!(y_value.atan2(x_value))
 }
